@@ -27,6 +27,7 @@ fn classify_msg(msg: &str) -> &'static str {
         ("end bound is invalid", "InvalidBoundEnd"),
         ("is impossible, it end before it starts", "ImpossibleRange"),
         ("it can't be used as a rust identifier", "InvalidKey"),
+        ("duplicate key", "DuplicateKey"),
         ("Unknown formatter", "UnknownFormatter"),
         ("Malformed foreign key args", "InvalidForeignKeyArgs"),
         ("Unexpected error occured while parsing key", "UnexpectedToken"),
